@@ -40,6 +40,7 @@ type vfGWInst struct {
 	monCanon  func(in *vfGWInst) string
 	lpubN     int
 	lpubDone  map[string]bool
+	blAPI     map[string]bool // peers BlacklistPeer has been called for
 }
 
 func newVfGWInst(x *vfExec, sc *vfGWScenario, oracle vfGWOracle, extra ...Option) *vfGWInst {
@@ -70,6 +71,11 @@ func (in *vfGWInst) track(evFull string) {
 		delete(in.announced[f[1]], f[2])
 	case "disc", "inclose", "inreset", "inopen", "outreset", "outclose":
 		in.announced[f[1]] = map[string]bool{}
+	case "bl":
+		if in.blAPI == nil {
+			in.blAPI = map[string]bool{}
+		}
+		in.blAPI[f[1]] = true
 	case "lpub", "lpubbatch", "lpubgo":
 		if in.lpubDone == nil {
 			in.lpubDone = map[string]bool{}
@@ -126,7 +132,8 @@ func (in *vfGWInst) Enabled() []string {
 			g.appMu.Unlock()
 			ok = fmt.Sprint(cur) != f[2]
 		case "bl":
-			ok = !in.last.Blacklst[f[1]]
+			// (also for a peer that is already in the list through the implementation: BlacklistPeer still has to evict it)
+			ok = !in.blAPI[f[1]]
 		case "lpub", "lpubbatch", "lpubgo":
 			ok = !in.lpubDone[f[2]] // labels of local publications are unique
 		case "blimpl":
